@@ -121,6 +121,17 @@ class Regular(ProducerContract):
         st = ip.st
         W = st.ghost['W']
         g = st.ghost['self_gen']
+        if st.ghost.get('closing_at') is None and (kind == 'return' or (kind == 'raise' and res.cls is _ForceDisconnect)):
+            # a complete evaluation of the housekeeping includes exactly one auto-ping check with the caller's rate (C15)
+            from pyvc.contracts import calls_since
+            cs = calls_since(ip, old, 'WebsocketSession._check_auto_ping')
+            same = lambda x, y: (x is y) or (z3.is_expr(x) and z3.is_expr(y) and x.eq(y))
+            st.oblige('auto-ping-check-evaluated-exactly-once-with-the-callers-ping_rate',
+                      BoolVal(len(cs) == 1 and same(cs[0].ping_rate, a.ping_rate)), tags=('C15',))
+            ct = calls_since(ip, old, 'WebsocketSession._check_close_timeout')
+            if kind == 'return':
+                st.oblige('close-timeout-check-evaluated-with-the-callers-close_timeout',
+                          BoolVal(len(ct) == 1 and (ct[0].close_timeout is a.close_timeout)), tags=('C15', 'C07'))
         if kind == 'raise' and res.cls is _ForceDisconnect and st.ghost.get('closing_at') is None:
             # from the property (C15): a forced disconnect only after Unresponsive, or when the close
             # timeout expired
